@@ -31,6 +31,9 @@ type Op struct {
 type Case struct {
 	TTL int  `json:"ttl"`
 	Ops []Op `json:"ops"`
+	// Encrypted: the collecting process is configured for DTLS (IsEncrypted); template lifetime
+	// over UDP is the same with or without encryption.
+	Encrypted bool `json:"encrypted,omitempty"`
 }
 
 type Stats struct{ Interleaved, Expired, DataAfterRefresh bool }
@@ -61,7 +64,9 @@ func variants() [][]gen.TField {
 		}
 		panic(name)
 	}
-	return [][]gen.TField{{f("sourceIPv4Address", 0)}, {f("sourceTransportPort", 0), f("destinationTransportPort", 0), f("protocolIdentifier", 0)}}
+	// the third variant has no fields (the form of a template withdrawal): it is stored like any other
+	// template, but no data record can be defined by it
+	return [][]gen.TField{{f("sourceIPv4Address", 0)}, {f("sourceTransportPort", 0), f("destinationTransportPort", 0), f("protocolIdentifier", 0)}, {}}
 }
 
 type mtpl struct {
@@ -78,7 +83,7 @@ func runCase(c Case, st *Stats) *ev.Failure {
 	vars := variants()
 	t0 := time.Unix(1700000000, 0)
 	clk := glue.NewHClock(t0)
-	col := glue.NewCol("udp", collector.DecodingModeStrict, clk, uint32(c.TTL))
+	col := glue.NewColEnc("udp", collector.DecodingModeStrict, clk, uint32(c.TTL), c.Encrypted)
 	ttl := time.Duration(c.TTL) * time.Second
 	model := map[glue.TplKey]*mtpl{}
 	firedUnfinished := map[glue.TplKey]bool{} // a timer of the key fired and its callback has not finished
@@ -141,7 +146,11 @@ func runCase(c Case, st *Stats) *ev.Failure {
 			if f != nil {
 				return f
 			}
-			if m := model[k]; m != nil {
+			if m := model[k]; m != nil && len(view) == 0 {
+				if dr.Err == nil && len(dr.Msg.GetSet().GetRecords()) != 0 {
+					return ev.Failf("op %d: records delivered for a template without fields", i)
+				}
+			} else if m != nil {
 				if dr.Err != nil {
 					return ev.Failf("op %d: data for template %+v rejected %v after its last (re)transmission, lifetime %v: dropped early (%v)", i, k, now.Sub(m.lastRefresh), ttl, dr.Err)
 				}
@@ -279,7 +288,7 @@ func runRecorded(phase string, c Case) *ev.Failure {
 func TestC10(t *testing.T) {
 	const ttl = 100
 	alphabet := []Op{
-		{Kind: "tpl", Key: 0}, {Kind: "tpl", Key: 0, Var: 1}, {Kind: "tpl", Key: 1}, {Kind: "bad", Key: 0}, {Kind: "data", Key: 0}, {Kind: "data", Key: 1},
+		{Kind: "tpl", Key: 0}, {Kind: "tpl", Key: 0, Var: 1}, {Kind: "tpl", Key: 0, Var: 2}, {Kind: "tpl", Key: 1}, {Kind: "bad", Key: 0}, {Kind: "data", Key: 0}, {Kind: "data", Key: 1},
 		{Kind: "adv", D: ttl - 1}, {Kind: "adv", D: 1}, {Kind: "adv", D: ttl},
 		{Kind: "start"}, {Kind: "finish"}, {Kind: "run"}, {Kind: "run", Idx: 1},
 	}
@@ -291,13 +300,14 @@ func TestC10(t *testing.T) {
 		depth = 0
 	}
 	failed := false
+	encrypted := false
 	var enum func(prefix []Op)
 	enum = func(prefix []Op) {
 		if failed {
 			return
 		}
 		if len(prefix) == depth {
-			c := Case{TTL: ttl, Ops: append([]Op(nil), prefix...)}
+			c := Case{TTL: ttl, Ops: append([]Op(nil), prefix...), Encrypted: encrypted}
 			if f := runRecorded("exhaustive", c); f != nil {
 				c = shrink(c)
 				rec.Violation("exhaustive", c, runCase(c, nil).Msg)
@@ -315,6 +325,10 @@ func TestC10(t *testing.T) {
 	}
 	if depth > 0 {
 		enum(nil)
+		// the same space with the process configured for DTLS, one level shallower
+		encrypted, depth = true, depth-1
+		enum(nil)
+		encrypted, depth = false, depth+1
 	}
 	if failed {
 		return
@@ -325,11 +339,11 @@ func TestC10(t *testing.T) {
 		rec.Extra("alphabet_size", len(alphabet))
 	}
 	ev.Rapid(t, rec, "random", rec.Scale(4000, 300000), func(t *rapid.T) Case {
-		c := Case{TTL: rapid.SampledFrom([]int{100, 100, 1, 1800}).Draw(t, "ttl")}
+		c := Case{TTL: rapid.SampledFrom([]int{100, 100, 1, 1800}).Draw(t, "ttl"), Encrypted: rapid.IntRange(0, 3).Draw(t, "enc") == 0}
 		for n := rapid.IntRange(2, 60).Draw(t, "n"); n > 0; n-- {
 			switch k := rapid.IntRange(0, 13).Draw(t, "op"); {
 			case k <= 2:
-				c.Ops = append(c.Ops, Op{Kind: "tpl", Key: rapid.IntRange(0, 3).Draw(t, "key"), Var: rapid.IntRange(0, 1).Draw(t, "var")})
+				c.Ops = append(c.Ops, Op{Kind: "tpl", Key: rapid.IntRange(0, 3).Draw(t, "key"), Var: rapid.SampledFrom([]int{0, 0, 1, 1, 2}).Draw(t, "var")})
 			case k == 3:
 				c.Ops = append(c.Ops, Op{Kind: "bad", Key: rapid.IntRange(0, 3).Draw(t, "key")})
 			case k <= 5:
